@@ -33,6 +33,14 @@ def gen_cases(tier, seed):
         for A in subs:
             for B in subs:
                 cases.append({"kind": "kernel", "op": op, "A": A, "B": B})
+    # non-contiguous operands (the kernels take strided views): every second element of a padded buffer, and a
+    # reversed view of a descending buffer; same pairs over a 4-point sub-universe
+    su = subsets([u[0], u[1], u[-2], u[-1]])
+    for op in ("inter", "union", "diff"):
+        for A in su:
+            for B in su:
+                for la, lb in (("stride2", "contig"), ("contig", "stride2"), ("reversed", "stride2"), ("stride2", "reversed")):
+                    cases.append({"kind": "kernel", "op": op, "A": A, "B": B, "layoutA": la, "layoutB": lb})
     # wrappers: every None / empty / non-empty combination, plus all pairs over a 4-point universe
     wu = [0, 5, 2 ** 31, M32]
     wsubs = [None] + subsets(wu)
@@ -83,12 +91,59 @@ def _ranks(values):
     return {v: i for i, v in enumerate(table)}
 
 
-def execute(cases, mod, asan_log=None):
+class GuardPages:
+    """allocates uint32 arrays so that the last element is immediately followed by an inaccessible page
+    (odd calls: the first element is immediately preceded by one): any access outside the array faults"""
+
+    def __init__(self):
+        import ctypes, mmap
+        self.ctypes, self.mmap = ctypes, mmap
+        self.libc = ctypes.CDLL(None, use_errno=True)
+        self.page = mmap.PAGESIZE
+        self.keep = []
+        self.n = 0
+
+    def place(self, x):
+        import numpy as np
+        ctypes, mmap = self.ctypes, self.mmap
+        nbytes = 4 * len(x)
+        pages = (nbytes + self.page - 1) // self.page + 2
+        m = mmap.mmap(-1, pages * self.page)
+        base = ctypes.addressof(ctypes.c_char.from_buffer(m))
+        self.n += 1
+        if self.n % 2:       # guard page after the data
+            if self.libc.mprotect(ctypes.c_void_p(base + (pages - 1) * self.page), self.page, 0) != 0:
+                raise OSError("mprotect failed")
+            off = (pages - 1) * self.page - nbytes
+        else:                # guard page before the data
+            if self.libc.mprotect(ctypes.c_void_p(base), self.page, 0) != 0:
+                raise OSError("mprotect failed")
+            off = self.page
+        a = np.frombuffer(m, dtype=np.uint32, count=len(x), offset=off)
+        a[:] = x
+        self.keep.append(m)
+        if len(self.keep) > 64:
+            self.keep = self.keep[-8:]
+        return a
+
+
+def execute(cases, mod, asan_log=None, guard=None, progress=None):
     """Run every case on the kernel module `mod`; returns events (one per case)."""
     import numpy as np
 
-    def arr(x):
-        return None if x is None else np.array(x, dtype=np.uint32)
+    def arr(x, layout="contig"):
+        if x is None:
+            return None
+        if layout == "stride2":
+            base = np.full(2 * len(x) + 1, 0xDEADBEEF, dtype=np.uint32)
+            base[0:2 * len(x):2] = x
+            return base[0:2 * len(x):2]
+        if layout == "reversed":
+            base = np.array(list(reversed(x)) + [0xDEADBEEF], dtype=np.uint32)
+            return base[:len(x)][::-1]
+        if guard is not None:
+            return guard.place(x)
+        return np.array(x, dtype=np.uint32)
 
     kern = {"inter": mod.set_intersect_merge_np, "union": mod.set_union_merge_np, "diff": mod.set_difference_merge_np}
     wrap = {"inter": mod.intersection, "union": mod.union, "diff": mod.difference}
@@ -109,10 +164,13 @@ def execute(cases, mod, asan_log=None):
               "dtype": "uint32"}
         before = asan_size()
         ret = None
+        if progress is not None:
+            with open(progress, "w") as pf:
+                pf.write(str(tid))
         try:
             if c["kind"] == "kernel":
                 ins = list(c["A"]) + list(c["B"])
-                ret = kern[c["op"]](arr(c["A"]), arr(c["B"]))
+                ret = kern[c["op"]](arr(c["A"], c.get("layoutA", "contig")), arr(c["B"], c.get("layoutB", "contig")))
             elif c["kind"] == "wrapper":
                 ins = list(c["a"] or []) + list(c["b"] or [])
                 ret = wrap[c["op"]](arr(c["a"]), arr(c["b"]), **c.get("flags", {}))
@@ -190,3 +248,65 @@ def execute_subprocess(cases, so, asan_runtime=None, workdir="."):
     if p.returncode != 0 or not os.path.exists(outp):
         raise RuntimeError("kernel subprocess failed rc=%s\n%s" % (p.returncode, (p.stdout + p.stderr)[-2000:]))
     return json.load(open(outp))
+
+
+def execute_guarded(cases, so, workdir="."):
+    """Run every case in child processes with the operands placed against inaccessible pages. A child that dies
+    (SIGSEGV/SIGBUS) marks the case it was executing with guard=True (reported through the `asan` field) and a new
+    child continues with the next case."""
+    events = []
+    start = 0
+    deaths = 0
+    while start < len(cases):
+        inp = os.path.join(workdir, "gcases.json")
+        outp = os.path.join(workdir, "gevents.json")
+        prog = os.path.join(workdir, "gprogress")
+        json.dump(cases[start:], open(inp, "w"))
+        for f in (outp, prog):
+            if os.path.exists(f):
+                os.unlink(f)
+        cmd = [sys.executable, "-c",
+               "import sys, json; sys.path.insert(0, %r); from harness.drivers import kernels as k; "
+               "m = k._load_standalone(%r); g = k.GuardPages(); ev = k.execute(json.load(open(%r)), m, None, g, %r); "
+               "json.dump(ev, open(%r, 'w'))"
+               % (str(Path(__file__).resolve().parents[2]), so, inp, prog, outp)]
+        p = subprocess.run(cmd, capture_output=True, text=True, timeout=3600)
+        if p.returncode == 0 and os.path.exists(outp):
+            evs = json.load(open(outp))
+            for e in evs:
+                e["tid"] += start
+            events += evs
+            break
+        if p.returncode >= 0 or not os.path.exists(prog):
+            raise RuntimeError("guarded kernel subprocess failed rc=%s\n%s" % (p.returncode, (p.stdout + p.stderr)[-1500:]))
+        # killed by a signal while executing case number `done` (1-based within this chunk)
+        done = int(open(prog).read())
+        deaths += 1
+        if deaths > 200:
+            raise RuntimeError("more than 200 guard-page faults")
+        # events for the cases before the fatal one are re-computed in-process-free fashion: rerun that prefix
+        if done > 1:
+            json.dump(cases[start:start + done - 1], open(inp, "w"))
+            p2 = subprocess.run(cmd, capture_output=True, text=True, timeout=3600)
+            if p2.returncode != 0:
+                raise RuntimeError("guarded prefix rerun failed")
+            evs = json.load(open(outp))
+            for e in evs:
+                e["tid"] += start
+            events += evs
+        c = cases[start + done - 1]
+        ev = {"tid": start + done, "kind": c["kind"], "oob": False, "asan": True, "exc": False, "alien": False, "dtype": "uint32",
+              "excmsg": "child killed by signal %d (access outside the operand buffers: guard page)" % (-p.returncode)}
+        if c["kind"] == "kernel":
+            rk = _ranks(list(c["A"]) + list(c["B"]))
+            ev.update(op=c["op"], A=[rk[x] for x in c["A"]], B=[rk[x] for x in c["B"]], ret=[])
+        elif c["kind"] == "wrapper":
+            rk = _ranks(list(c["a"] or []) + list(c["b"] or []))
+            O = lambda x: {"none": x is None, "v": [rk[v] for v in (x or [])]}  # noqa
+            ev.update(op=c["op"], a=O(c["a"]), b=O(c["b"]), r={"none": True, "v": []})
+        else:
+            rk = _ranks([x for a in c["L"] for x in a])
+            ev.update(L=[[rk[x] for x in a] for a in c["L"]], ret=[])
+        events.append(ev)
+        start += done
+    return events
